@@ -168,6 +168,62 @@ Proof.
   cbn [limit_of]. replace (step =? 0) with false by (symmetry; apply N.eqb_neq; lia). reflexivity.
 Qed.
 
+(* ---- which policy a credential gets (Credential::softlock_policy) *)
+
+(* Any credential that offers a TOTP factor — whatever else it carries: security keys,
+   backup codes — gets the per-step policy, with the SMALLEST step of its TOTPs. *)
+Theorem C28_totp_factor_gets_totp_policy : forall s r keys backup,
+  exists m, softlock_policy (SMfa (s :: r) keys backup) = PTotp m /\
+            In m (s :: r) /\ forall x, In x (s :: r) -> m <= x.
+Proof.
+  intros s r keys backup. exists (min_step (s :: r)). split; [reflexivity|apply min_step_spec].
+Qed.
+
+(* a credential whose only factor is a password (typed, generated, or an MFA shell without
+   TOTP and security key) gets the per-day policy; the 1 s webauthn policy is given only to
+   credentials without a TOTP factor that have a security key, and to passkeys *)
+Theorem C28_password_only_gets_password : forall backup,
+  softlock_policy SPassword = PPassword /\ softlock_policy SGenerated = PPassword /\
+  softlock_policy (SMfa [] 0 backup) = PPassword.
+Proof. intros backup. repeat split; reflexivity. Qed.
+
+Theorem C28_webauthn_policy_only_without_totp : forall c,
+  softlock_policy c = PWebauthn ->
+  (exists n, c = SPasskey n) \/ (exists keys backup, c = SMfa [] keys backup /\ 0 < keys).
+Proof.
+  intros [| |steps keys b|n] H; try discriminate; [|left; eexists; reflexivity].
+  cbn [softlock_policy] in H. destruct steps as [|s r]; cbn [negb] in H; [|discriminate].
+  destruct (keys =? 0) eqn:E; [discriminate|]. apply N.eqb_neq in E.
+  right. exists keys, b. split; [reflexivity|lia].
+Qed.
+
+(* the selected policy meets the selection spec for every shape *)
+Theorem C28_policy_selection_spec : forall c, policy_spec c (softlock_policy c) = true.
+Proof. exact policy_spec_ok. Qed.
+
+(* hence: a credential offering a TOTP factor (all steps > 0) records at most 3 failures in
+   any window of its smallest TOTP step, and a password-only credential at most 100 per UTC
+   day — for the lock that the server creates with the SELECTED policy *)
+Theorem C28_totp_credential_3_per_step : forall s r keys backup l k,
+  (forall x, In x (s :: r) -> 0 < x) ->
+  mono 0 l = true -> quiet_all 0 l = true ->
+  failed_in (min_step (s :: r) * G) k l
+    (exec (new (softlock_policy (SMfa (s :: r) keys backup))) l) <= 3.
+Proof.
+  intros s r keys backup l k Hpos Hm Hq.
+  change (softlock_policy (SMfa (s :: r) keys backup)) with (PTotp (min_step (s :: r))).
+  apply C28_totp_3_per_step; [|exact Hm|exact Hq].
+  apply Hpos. apply min_step_spec.
+Qed.
+
+Theorem C28_password_credential_100_per_day : forall c l day,
+  c = SPassword \/ c = SGenerated \/ (exists b, c = SMfa [] 0 b) ->
+  mono 0 l = true -> quiet_all 0 l = true ->
+  failed_in (ONEDAY * G) day l (exec (new (softlock_policy c)) l) <= 100.
+Proof.
+  intros c l day [->|[->|[b ->]]] Hm Hq; apply C28_password_100_per_day; assumption.
+Qed.
+
 (* ---- bridge: a run without disagreements transfers everything to the observed cases *)
 Theorem C28_agree_implies_property : forall c, case_ok c = true -> agree c = true ->
   pcheck c = true.
